@@ -25,9 +25,13 @@ EXTENDS Recorder, Integers
 CONSTANTS MaxDrv, MaxSol, MaxSub, MaxProb,
           Configs,        \* set of [att: set of requester labels, mode: "driver" | "model", nums: strictly increasing
                           \* sequence of naturals of length >= MaxDrv * MaxSol + 1]
-          WinAdj          \* 0 = the code; 1 / -1: the deliberately broken window (must be refuted)
+          WinAdj,         \* 0 = the code; 1 / -1: the deliberately broken window (must be refuted)
+          S1              \* name of the sub-group ("s1"; "rootsub": a name that merely STARTS with "root")
+\* (Fix, the set of reader repairs assumed by the transcription, is a constant of Recorder.tla)
 
-Reqs == {"problem", "driver", "sys:", "sys:s1", "sys:s2", "nl:", "nl:s1"}
+SYS1 == "sys:" \o S1
+NL1 == "nl:" \o S1
+Reqs == {"problem", "driver", "sys:", SYS1, "sys:s2", "nl:", NL1}
 
 \* values for the configuration files (cfg files cannot hold tuples): CONSTANT Configs <- ConfigsQuick
 MinusOne == -1                                        \* WinAdj <- MinusOne (cfg files have no negative numbers)
@@ -36,16 +40,18 @@ Dec == <<1, 10, 11, 12, 100, 101, 110, 111>>          \* 1 | 10..12 | 100.. : ev
 Nine == <<8, 9, 10, 11, 19, 20, 99, 100>>             \* 9 -> 10, 99 -> 100
 Cfg(a, m, n) == [att |-> a, mode |-> m, nums |-> n]
 ConfigsQuick == {Cfg(Reqs, "driver", Dec), Cfg(Reqs, "model", Nine),
-                 Cfg({"driver", "sys:s1", "nl:s1"}, "driver", Dec),        \* root and its solver not recorded
+                 Cfg({"driver", SYS1, NL1}, "driver", Dec),        \* root and its solver not recorded
                  Cfg({"driver", "nl:", "sys:s2"}, "driver", Nine),
                  Cfg({"sys:", "nl:", "problem"}, "model", Dec),
-                 Cfg({"problem", "nl:s1", "sys:s2"}, "driver", Plain),
-                 Cfg({"driver", "sys:", "sys:s1", "sys:s2"}, "driver", Dec),
-                 Cfg({"nl:", "nl:s1"}, "model", Dec)}
-ConfigsRefute == {Cfg({"driver", "sys:s1", "nl:s1"}, "driver", Dec), Cfg({"nl:", "nl:s1"}, "model", Dec)}
+                 Cfg({"problem", NL1, "sys:s2"}, "driver", Plain),
+                 Cfg({"driver", "sys:", SYS1, "sys:s2"}, "driver", Dec),
+                 Cfg({"nl:", NL1}, "model", Dec)}
+\* get_case(<int>) on files that hold problem cases, with and without driver cases
+ConfigsIdx == {Cfg(Reqs, "driver", Dec), Cfg({"problem", "sys:", NL1}, "model", Plain), Cfg({"problem", "driver"}, "driver", Plain)}
+ConfigsRefute == {Cfg({"driver", SYS1, NL1}, "driver", Dec), Cfg({"nl:", NL1}, "model", Dec)}
 ConfigsAll == {Cfg(a, "driver", Dec) : a \in SUBSET Reqs \ {{}}}
-              \cup {Cfg(a, "model", n) : a \in {Reqs, {"sys:", "nl:s1"}, {"nl:", "sys:s1", "problem"}}, n \in {Plain, Dec, Nine}}
-              \cup {Cfg(a, "driver", n) : a \in {Reqs, {"driver", "sys:s1"}, {"driver", "nl:s1", "sys:s2"}}, n \in {Plain, Nine}}
+              \cup {Cfg(a, "model", n) : a \in {Reqs, {"sys:", NL1}, {"nl:", SYS1, "problem"}}, n \in {Plain, Dec, Nine}}
+              \cup {Cfg(a, "driver", n) : a \in {Reqs, {"driver", SYS1}, {"driver", NL1, "sys:s2"}}, n \in {Plain, Nine}}
 
 VARIABLES pcs,      \* parallel to stack: progress of each open frame
           mode, nums, nsub, nprob
@@ -94,15 +100,15 @@ RootSolve == /\ Len(stack) > 0 /\ Top.r = "sys:"
              /\ \/ TopPc < (IF norec > 0 THEN 1 ELSE MaxSol) /\ Push(RootNL, Num(TopPc), "nl:", TopPc + 1)
                 \/ TopPc >= 1 /\ Pop
 RootIter == /\ Len(stack) > 0 /\ Top.r = "nl:"
-            /\ \/ TopPc = 0 /\ Push("s1._solve_nonlinear", Num(ictr["sys:s1"]), "sys:s1", 1)
+            /\ \/ TopPc = 0 /\ Push(S1 \o "._solve_nonlinear", Num(ictr[SYS1]), SYS1, 1)
                \/ TopPc = 1 /\ Push("s2._solve_nonlinear", Num(ictr["sys:s2"]), "sys:s2", 2)
                \/ TopPc = 2 /\ Push("_run_apply", 0, "", 3)
                \/ TopPc = 3 /\ Pop
 RunApply == Len(stack) > 0 /\ Top.n = "_run_apply" /\ Pop
-SubSolve == /\ Len(stack) > 0 /\ Top.r = "sys:s1"
-            /\ \/ TopPc < nsub /\ Push(SubNL, Num(TopPc), "nl:s1", TopPc + 1)
+SubSolve == /\ Len(stack) > 0 /\ Top.r = SYS1
+            /\ \/ TopPc < nsub /\ Push(SubNL, Num(TopPc), NL1, TopPc + 1)
                \/ TopPc = nsub /\ Pop
-SubIter == Len(stack) > 0 /\ Top.r = "nl:s1" /\ Pop
+SubIter == Len(stack) > 0 /\ Top.r = NL1 /\ Pop
 Leaf == Len(stack) > 0 /\ Top.r = "sys:s2" /\ Pop
 
 Next == DriverBegin \/ ModelBegin \/ ProblemRecord \/ DriverIter \/ Totals \/ RootSolve \/ RootIter \/ RunApply
@@ -121,6 +127,8 @@ Descendants == Quiescent => \A i \in 1..Len(log) : log[i].req # "problem" =>
                                RdFlatW(log, log[i].coord, WinAdj) = FlatAns(Coords(Desc(log, i)))
 Sources == Quiescent => SourcesExact(log)
 SourceLists == Quiescent => SourceListsExact(log)
+\* get_case(i) for every index in and just outside the range (holds with Fix = {"getcase"}, refuted without)
+Indexed == Quiescent => IndexedExact(log)
 \* the two places where the code is NOT what the property states (refuted by TLC; see c17.py):
 Nested == Quiescent => NestedExact(log)
 CoordPlain == Quiescent => CoordNoRecurse(log)
